@@ -244,27 +244,26 @@ func init() {
 			}
 			return strings.LastIndex(str(a[0]), str(a[1]))
 		},
-		"strings.ToUpper":      func(fr *frame, a []value) value { return strings.ToUpper(str(a[0])) },
-		"strings.Compare":      func(fr *frame, a []value) value { return strings.Compare(str(a[0]), str(a[1])) },
-		"strings.Fields":       func(fr *frame, a []value) value { return toValSlice(strings.Fields(str(a[0]))) },
-		"strings.TrimSpace":    func(fr *frame, a []value) value { return strings.TrimSpace(str(a[0])) },
-		"strings.TrimPrefix":   func(fr *frame, a []value) value { return strings.TrimPrefix(str(a[0]), str(a[1])) },
-		"strings.TrimSuffix":   func(fr *frame, a []value) value { return strings.TrimSuffix(str(a[0]), str(a[1])) },
-		"strings.Trim":         func(fr *frame, a []value) value { return strings.Trim(str(a[0]), str(a[1])) },
-		"strings.TrimLeft":     func(fr *frame, a []value) value { return strings.TrimLeft(str(a[0]), str(a[1])) },
-		"strings.TrimRight":    func(fr *frame, a []value) value { return strings.TrimRight(str(a[0]), str(a[1])) },
-		"strings.Title":        func(fr *frame, a []value) value { return strings.Title(str(a[0])) },
-		"strings.SplitN":       func(fr *frame, a []value) value { return toValSlice(strings.SplitN(str(a[0]), str(a[1]), a[2].(int))) },
-		"strings.ReplaceAll":   func(fr *frame, a []value) value { return strings.ReplaceAll(str(a[0]), str(a[1]), str(a[2])) },
-		"strings.ContainsRune": func(fr *frame, a []value) value { return strings.ContainsRune(str(a[0]), a[1].(int32)) },
-		"strings.ContainsAny":  func(fr *frame, a []value) value { return strings.ContainsAny(str(a[0]), str(a[1])) },
-		"strings.IndexAny":     func(fr *frame, a []value) value { return strings.IndexAny(str(a[0]), str(a[1])) },
-		"strings.IndexRune":    func(fr *frame, a []value) value { return strings.IndexRune(str(a[0]), a[1].(int32)) },
-		"strings.EqualFold":    func(fr *frame, a []value) value { return strings.EqualFold(str(a[0]), str(a[1])) },
-		"strings.NewReader": func(fr *frame, a []value) value {
-			var c value = &nativeObj{strings.NewReader(str(a[0]))}
-			return &c
-		},
+		"strings.ToUpper":                  func(fr *frame, a []value) value { return strings.ToUpper(str(a[0])) },
+		"strings.Compare":                  func(fr *frame, a []value) value { return strings.Compare(str(a[0]), str(a[1])) },
+		"internal/bytealg.IndexByteString": func(fr *frame, a []value) value { return strings.IndexByte(str(a[0]), a[1].(uint8)) },
+		"internal/bytealg.CountString":     func(fr *frame, a []value) value { return strings.Count(str(a[0]), string([]byte{a[1].(uint8)})) },
+		"internal/bytealg.IndexString":     func(fr *frame, a []value) value { return strings.Index(str(a[0]), str(a[1])) },
+		"strings.Fields":                   func(fr *frame, a []value) value { return toValSlice(strings.Fields(str(a[0]))) },
+		"strings.TrimSpace":                func(fr *frame, a []value) value { return strings.TrimSpace(str(a[0])) },
+		"strings.TrimPrefix":               func(fr *frame, a []value) value { return strings.TrimPrefix(str(a[0]), str(a[1])) },
+		"strings.TrimSuffix":               func(fr *frame, a []value) value { return strings.TrimSuffix(str(a[0]), str(a[1])) },
+		"strings.Trim":                     func(fr *frame, a []value) value { return strings.Trim(str(a[0]), str(a[1])) },
+		"strings.TrimLeft":                 func(fr *frame, a []value) value { return strings.TrimLeft(str(a[0]), str(a[1])) },
+		"strings.TrimRight":                func(fr *frame, a []value) value { return strings.TrimRight(str(a[0]), str(a[1])) },
+		"strings.Title":                    func(fr *frame, a []value) value { return strings.Title(str(a[0])) },
+		"strings.SplitN":                   func(fr *frame, a []value) value { return toValSlice(strings.SplitN(str(a[0]), str(a[1]), a[2].(int))) },
+		"strings.ReplaceAll":               func(fr *frame, a []value) value { return strings.ReplaceAll(str(a[0]), str(a[1]), str(a[2])) },
+		"strings.ContainsRune":             func(fr *frame, a []value) value { return strings.ContainsRune(str(a[0]), a[1].(int32)) },
+		"strings.ContainsAny":              func(fr *frame, a []value) value { return strings.ContainsAny(str(a[0]), str(a[1])) },
+		"strings.IndexAny":                 func(fr *frame, a []value) value { return strings.IndexAny(str(a[0]), str(a[1])) },
+		"strings.IndexRune":                func(fr *frame, a []value) value { return strings.IndexRune(str(a[0]), a[1].(int32)) },
+		"strings.EqualFold":                func(fr *frame, a []value) value { return strings.EqualFold(str(a[0]), str(a[1])) },
 		"sort.Slice": func(fr *frame, a []value) value {
 			sl := a[0].(iface).v.([]value)
 			less := a[1]
@@ -390,6 +389,14 @@ func extParse(fr *frame, a []value) value {
 	case *value:
 		if n, ok := (*rv).(*nativeObj); ok {
 			r = n.v.(io.Reader)
+		} else if st, ok := (*rv).(structure); ok && len(st) == 3 {
+			// an interpreted *strings.Reader {s string; i int64; prevRune int}
+			str, ok1 := st[0].(string)
+			off, ok2 := st[1].(int64)
+			if !ok1 || !ok2 {
+				panic(fmt.Sprintf("extParse: unsupported reader structure %v", st))
+			}
+			r = strings.NewReader(str[off:])
 		} else {
 			panic(fmt.Sprintf("extParse: unsupported reader %T", *rv))
 		}
@@ -617,4 +624,14 @@ func nativeRegexp(v value) *regexp.Regexp {
 		panic("unsupported: regexp value is not a native handle")
 	}
 	return n.v.(*regexp.Regexp)
+}
+
+// Strings converts an interpreter []string value.
+func (e *Engine) Strings(v interface{}) []string {
+	vs, _ := v.([]value)
+	out := make([]string, len(vs))
+	for i, x := range vs {
+		out[i], _ = x.(string)
+	}
+	return out
 }
